@@ -264,6 +264,17 @@ Theorem C09_hostpass_lazy_route : forall root host path fuel lazy,
 Proof. exact lbd_eq_spec_lazy. Qed.
 Print Assumptions C09_hostpass_lazy_route.
 
+(* the ONE lemma through which [nohslash host] enters the roots_lookup-level theorem *)
+Theorem C09_host_pass_nohslash : forall root host path fuel,
+  hroot_ok root -> nroute root = None -> host <> [] -> nohslash host -> pathok path = true ->
+  root_side path root -> hroot_fuel path root <= fuel ->
+  direct_obs (lookup_by_domain fuel root host path false [] []) =
+    spec_direct_host (map rpat (routes_of_node root)) host path /\
+  exists tn' t p tp, lookup_by_domain fuel root host path false [] [] = Found tn' t p tp /\
+    (select_in (map rpat (routes_of_node root)) host path true = None -> t = false -> tn' = None).
+Proof. exact host_pass_nohslash. Qed.
+Print Assumptions C09_host_pass_nohslash.
+
 (* the stage reached, at the level roots_lookup / spec_lookup, for a method WITH hostname routes.
    Missing for the full statement: (1) the link WF_txn => hroot_ok (as for pwf in stage 2-4: the
    examples use the boolean checkers on trees built with Tree.insert); (2) [host_tsr_agree]: that M1
